@@ -297,3 +297,9 @@ Proof.
       * intros [_ H]. injection H as -> ->. reflexivity.
   - split; [discriminate|]. intros [_ H]. discriminate.
 Qed.
+
+Theorem navigation_wu_x_outcomes fuel n L D mh :
+  (navigation_wu_x fuel n L D mh = NavRaises <-> (n <= 1)%nat) /\
+  (forall sr rs, navigation_wu_x fuel n L D mh = NavDone sr rs <->
+                 ((2 <= n)%nat /\ navigation_wu fuel n L D mh = Some (sr, rs))).
+Proof. split; [apply navigation_wu_x_raises|intros; apply navigation_wu_x_done]. Qed.
